@@ -8,6 +8,22 @@ import runner
 LAST_MODEL = {}
 
 
+def merkle_mutations(n):
+    """Lists over 1..n with the same merkle root as 1..n (Bitcoin duplicates the last node of an odd level)."""
+    out = set()
+    # spans[i] = (first leaf, last leaf) covered by node i of the current level
+    level = [(i, i) for i in range(1, n + 1)]
+    while len(level) > 1:
+        if len(level) % 2 == 1:
+            a, b = level[-1]
+            # repeating the leaves under the last node gives the same root
+            m = list(range(1, n + 1)) + list(range(a, b + 1))
+            out.add(tuple(m))
+            level = level + [level[-1]]
+        level = [(level[i][0], max(level[i][1], level[i + 1][1])) for i in range(0, len(level), 2)]
+    return [list(x) for x in sorted(out)]
+
+
 def inputs(tier, seed):
     rng = random.Random(seed)
     wd = runner.workdir(f"mc-merkle-{tier}")
@@ -24,6 +40,22 @@ def inputs(tier, seed):
     for x in muts:
         for salt in range(2 if tier == "quick" else 6):
             cases.append({"fn": "block", "n": x["n"], "m": x["m"], "case": "cve", "salt": salt})
+    # members of the family beyond the bound of the model: at every level of the merkle tree whose length
+    # is odd, the span of leaves under the last node is repeated (TLC recomputes the root of each)
+    for n in range(2, 15):
+        for m in merkle_mutations(n):
+            cases.append({"fn": "block", "n": n, "m": m, "case": "cve-level", "salt": n})
+    # blocks whose header honestly commits to a list that repeats a transaction
+    for _ in range(40 if tier == "quick" else 600):
+        n = rng.randint(2, 7)
+        m = list(range(1, n + 1))
+        for _k in range(rng.choice([1, 1, 2])):
+            m.insert(rng.randint(1, len(m)), rng.choice(m))
+        cases.append({"fn": "block", "n": n, "m": m, "case": "committed-dup", "salt": rng.randint(0, 50), "commit": "self"})
+        ok = list(range(1, n + 1))
+        if rng.random() < 0.3:
+            rng.shuffle(ok)
+        cases.append({"fn": "block", "n": n, "m": ok, "case": "committed-perm", "salt": rng.randint(0, 50), "commit": "self"})
     # the longer members of the family that the bounded model does not reach (same construction)
     for n in range(1, 13):
         ident = list(range(1, n + 1))
